@@ -87,10 +87,15 @@ json generate(uint64_t seed, uint64_t idx, int tier)
 				json p = step(cl, "parse", 0);
 				p["src"] = {{"kind", r.chance(1, 4) ? "fp" : "buf"}, {"chunks", chunks_to_json(gen_text(r, schema["opts"], tg))}};
 				steps.push_back(p);
-			} else if (k < 45) {
+			} else if (k < 41) {
 				json p = step(cl, "parse", 0);
 				p["src"] = {{"kind", "buf"}, {"chunks", wrong_token_text(r, schema["opts"], flags)}};
 				steps.push_back(p);
+			} else if (k < 45) {
+				// a text the scanner itself gives up on, in the middle of a string or comment: the scanner is one per
+				// process, the other context's next parse must not find it in that state
+				static const char *stuck[] = {"\"zz\\777", "\"zz\\9", "'never closed", "/* never closed", "\"never closed", "\"x\\"};
+				steps.push_back(parse_step(cl, 0, r.chance(1, 4) ? "fp" : "buf", stuck[r.below(6)]));
 			} else if (k < 85)
 				steps.push_back(gen_api_step(r, cl, 0, refs[cl], ag));
 			else if (k < 93 && !paths.empty()) {
